@@ -66,6 +66,12 @@ func vApplyOpKind(t KeyValueTree, ref *vRef, key []byte, i int, kind int) {
 		if kind == 4 || symx.Cfg("emptyvals", 0) == 1 {
 			val = vVal(symx.N("val", i), 1)
 		}
+		if symx.Cfg("nilvals", 0) == 1 && len(val) == 0 && symx.Bool(symx.N("nilval", i)) {
+			// the empty value passed as a nil slice: still the empty value, not absence
+			symx.Assert(t.Insert(vCtx, key, nil) == nil, "Insert failed")
+			ref.set(key, []byte{})
+			break
+		}
 		symx.Assert(t.Insert(vCtx, key, val) == nil, "Insert failed")
 		ref.set(key, val)
 	case 1:
